@@ -4,6 +4,7 @@
 #[derive(Clone, Copy)] pub struct LyStr { pub p: usize }
 pub struct Hooks { }
 pub struct StringLen { }
+pub struct StringIndexGet { }
 pub enum Call { Ok(Value), Err }
 pub uninterp spec fn v_obj(v: Value) -> Obj;
 pub uninterp spec fn o_str(o: Obj) -> LyStr;
@@ -16,6 +17,7 @@ pub uninterp spec fn num_value(n: nat) -> Value;
 impl Value { #[verifier::external_body] pub fn to_obj(self) -> (r: Obj) ensures r == v_obj(self) { unimplemented!() } }
 impl Obj { #[verifier::external_body] pub fn to_str(self) -> (r: LyStr) ensures r == o_str(self) { unimplemented!() } }
 pub struct Chars { pub s: LyStr }
+pub struct RevChars { pub s: LyStr }
 impl LyStr {
   /// str::chars
   #[verifier::external_body] pub fn chars(&self) -> (r: Chars) ensures r.s == *self { unimplemented!() }
@@ -25,4 +27,42 @@ impl LyStr {
 impl Chars {
   /// Iterator::count on Chars
   #[verifier::external_body] pub fn count(self) -> (r: usize) ensures r as nat == str_chars(self.s).len() { unimplemented!() }
+}
+impl Chars {
+  /// Iterator::nth on a fresh Chars: the n-th character
+  #[verifier::external_body] pub fn nth(&mut self, n: usize) -> (r: Option<char>)
+    ensures r == (if (n as int) < str_chars(old(self).s).len() { Some(str_chars(old(self).s)[n as int]) } else { None::<char> }) { unimplemented!() }
+  #[verifier::external_body] pub fn rev(self) -> (r: RevChars) ensures r.s == self.s { unimplemented!() }
+}
+impl RevChars {
+  /// Iterator::nth on a fresh Rev<Chars>: the n-th character from the end
+  #[verifier::external_body] pub fn nth(&mut self, n: usize) -> (r: Option<char>)
+    ensures r == (if (n as int) < str_chars(old(self).s).len() { Some(str_chars(old(self).s)[str_chars(old(self).s).len() - 1 - n as int]) } else { None::<char> }) { unimplemented!() }
+}
+// ---- numbers (A-float) ----
+#[derive(Clone, Copy)] pub struct F64 { pub bits: u64 }
+pub uninterp spec fn v_num(v: Value) -> F64;
+/// the number is an integer (finite, no fractional part) and which one
+pub uninterp spec fn integral(x: F64) -> bool;
+pub uninterp spec fn as_int(x: F64) -> int;
+/// `x >= 0.0` (true for both zeros, false for NaN)
+pub uninterp spec fn ge_zero(x: F64) -> bool;
+#[verifier::external_body] pub broadcast proof fn axiom_ge_zero(x: F64) requires integral(x) ensures #[trigger] ge_zero(x) == (as_int(x) >= 0) { }
+impl Value { #[verifier::external_body] pub fn to_num(self) -> (r: F64) ensures r == v_num(self) { unimplemented!() } }
+/// `x.fract() != 0.0`: true for every non-integer, for NaN and for the infinities (their fract() is NaN)
+#[verifier::external_body] pub fn verif_has_fract(x: F64) -> (r: bool) ensures r == !integral(x) { unimplemented!() }
+#[verifier::external_body] pub fn verif_ge_zero(x: F64) -> (r: bool) ensures r == ge_zero(x) { unimplemented!() }
+/// `x as usize`: saturating
+#[verifier::external_body] pub fn verif_as_usize(x: F64) -> (r: usize)
+  ensures integral(x) && as_int(x) >= 0 ==> r as int == (if as_int(x) <= usize::MAX as int { as_int(x) } else { usize::MAX as int }) { unimplemented!() }
+/// `(-x) as usize`: saturating
+#[verifier::external_body] pub fn verif_neg_as_usize(x: F64) -> (r: usize)
+  ensures integral(x) && as_int(x) <= 0 ==> r as int == (if -as_int(x) <= usize::MAX as int { -as_int(x) } else { usize::MAX as int }) { unimplemented!() }
+/// the managed one-character string
+pub uninterp spec fn char_string(c: char) -> Value;
+#[verifier::external_body] pub fn verif_char_string(hooks: &mut Hooks, c: char) -> (r: Value) ensures r == char_string(c) { unimplemented!() }
+#[verifier::external_body] pub fn verif_fmt() -> (r: String) { unimplemented!() }
+impl StringIndexGet {
+  /// native_with_error!: the native's error class with this message
+  #[verifier::external_body] pub fn call_error<T>(&self, hooks: &mut Hooks, message: T) -> (r: Call) ensures r is Err { unimplemented!() }
 }
